@@ -35,6 +35,7 @@ type Verdict struct {
 	WF        []string `json:"wf,omitempty"`
 	Features  []string `json:"features,omitempty"`
 	NonTriv   bool     `json:"nontrivial"`
+	Tie       bool     `json:"tie,omitempty"`
 	EngKind   string   `json:"eng_kind,omitempty"`
 	Steps     int      `json:"steps"`
 	NumSeries int      `json:"nseries"`
@@ -110,12 +111,12 @@ func diffCase(c *Case, lean *LeanDriver) Verdict {
 	v.NonTriv = nonTrivial(prom)
 	v.EngVsProm = Diff(eng, prom)
 
-	lines, err := c.ProtoLines(plan, []string{"spec", "model"})
+	lines, err := c.ProtoLines(plan, []string{"spec", "model", "ties"})
 	if err != nil {
 		v.Skipped = "proto: " + err.Error()
 		return v
 	}
-	v.Features = features(lines[len(lines)-4])
+	v.Features = features(lines[len(lines)-5])
 	ans, err := lean.Ask(lines)
 	if err != nil {
 		v.Other = "lean: " + err.Error()
@@ -125,6 +126,13 @@ func diffCase(c *Case, lean *LeanDriver) Verdict {
 	model, err2 := ParseLeanResult(ans["model"])
 	if err1 != nil || err2 != nil {
 		v.Other = fmt.Sprintf("lean answer: %v %v", err1, err2)
+		return v
+	}
+	if ans["ties"] == "1" {
+		// a topk/bottomk tie at the selection boundary: the result legitimately depends on
+		// evaluation order (the reference engine itself is not deterministic there)
+		v.Tie = true
+		v.EngVsProm = ""
 		return v
 	}
 	v.PromVsSpec = Diff(prom, spec)
